@@ -8,6 +8,18 @@ ParseV(v) == [i \in 1..Len(v) |-> FParse(v[i])]
 ParseM(m) == Strict([i \in 1..Len(m) |-> [j \in 1..Len(m[i]) |-> FParse(m[i][j])]])
 D(e, i, j) == FParse(e.D[i][j])
 Cap == FInt(20)
+Sel(e) == Selected(e.rows, e.rmgaps)
+EigenSys(e) == LET V == ParseM(e.V) IN
+               [eval |-> ParseV(e.eval), U |-> ParseM(e.U), Vcol |-> Strict([j \in 1..20 |-> [k \in 1..20 |-> V[k][j]]]), pi |-> ParseV(e.pi)]
+Judged(e) == {p \in (1..Len(e.rows)) \X (1..Len(e.rows)) :
+                /\ p[1] < p[2] /\ DiffersUnambiguously(e.rows[p[1]], e.rows[p[2]]) /\ TotalCount(e.rows[p[1]], e.rows[p[2]], Sel(e), e.wts) > 0
+                /\ FLt(D(e, p[1], p[2]), Cap) /\ FLe(FInt(0), D(e, p[1], p[2]))}
+MaxOf(e, p) == LET cs == SetToSeq(PairCells(e.rows[p[1]], e.rows[p[2]], Sel(e)))
+                   counts == Strict([c \in Range(cs) |-> CellCount(e.rows[p[1]], e.rows[p[2]], Sel(e), e.wts, c)])
+               IN Maximises(EigenSys(e), cs, counts, TotalCount(e.rows[p[1]], e.rows[p[2]], Sel(e), e.wts), D(e, p[1], p[2]), e.gamma, FParse(e.alpha))
+\* the reported distance is a local maximiser (nothing nearby is better) but a grid distance has a higher likelihood
+LocalOptimum(e) == \E p \in Judged(e) : LET m == MaxOf(e, p) IN m.near /\ ~m.grid
+NearbyWorse(e) == \A p \in Judged(e) : MaxOf(e, p).near
 MatChecks(e) ==
   LET rows == e.rows  n == Len(rows)
       sel == Selected(rows, e.rmgaps)
@@ -22,10 +34,7 @@ MatChecks(e) ==
       diag      |-> \A i \in 1..n : FEq(D(e, i, i), FInt(0)),
       range     |-> \A p \in pairs : FLe(FInt(0), D(e, p[1], p[2])) /\ FLe(D(e, p[1], p[2]), Cap),
       zeroWhenEqual |-> \A p \in pairs : ~differs(p) => FEq(D(e, p[1], p[2]), FInt(0)),
-      optimal   |-> \A p \in pairs : (differs(p) /\ total(p) > 0 /\ FLt(D(e, p[1], p[2]), Cap) /\ FLe(FInt(0), D(e, p[1], p[2]))) =>
-                       LET cs == SetToSeq(PairCells(rows[p[1]], rows[p[2]], sel))
-                           counts == Strict([c \in Range(cs) |-> CellCount(rows[p[1]], rows[p[2]], sel, e.wts, c)])
-                       IN Maximises(es, cs, counts, total(p), D(e, p[1], p[2]), e.gamma, alpha)]
+      optimal   |-> \A p \in Judged(e) : LET m == MaxOf(e, p) IN m.near /\ m.grid]
 \* the pair has an unambiguous difference somewhere but no jointly informative selected site (reported outside [0,20]: known finding)
 NoJointSite(e) == LET rows == e.rows  sel == Selected(rows, e.rmgaps) IN
                   \E i, j \in 1..Len(rows) : i < j /\ DiffersUnambiguously(rows[i], rows[j]) /\ TotalCount(rows[i], rows[j], sel, e.wts) = 0
@@ -35,10 +44,12 @@ RelChecks(e) ==
 Failing(e) ==
   IF e.t = "rel" THEN LET ch == RelChecks(e) IN {k \in DOMAIN ch : ~ch[k]}
   ELSE IF e.kind = "panic" THEN {"noPanic"} ELSE IF e.kind = "hang" THEN {"returns"} ELSE IF e.kind = "err" THEN {"noError"}
-  ELSE LET ch == MatChecks(e) IN {k \in DOMAIN ch : ~ch[k]} \cup (IF NoJointSite(e) THEN {"noJointSite"} ELSE {})
+  ELSE LET ch == MatChecks(e)  f == {k \in DOMAIN ch : ~ch[k]} IN
+       f \cup (IF NoJointSite(e) THEN {"noJointSite"} ELSE {}) \cup (IF "optimal" \in f /\ NearbyWorse(e) THEN {"localOptimum"} ELSE {})
 Next == /\ l <= Len(Trace)
-        /\ LET f == Failing(Trace[l]) \ {"noJointSite"}
-               tag == IF "noJointSite" \in Failing(Trace[l]) /\ f # {} THEN {"noJointSite"} ELSE {}
+        /\ LET all == Failing(Trace[l])
+               f == all \ {"noJointSite", "localOptimum"}
+               tag == IF f # {} THEN all \cap {"noJointSite", "localOptimum"} ELSE {}
            IN bad' = IF f = {} THEN bad ELSE Append(bad, [i |-> l, failing |-> SetToSeq(f \cup tag)])
         /\ l' = l + 1
 Spec == Init /\ [][Next]_<<l, bad>>
